@@ -1,7 +1,8 @@
 /-
-  C02 — `Find_Root` (Ridder's method), src/Numerics.cpp §2, as coded after commit 0ee7d00
-  (the loop terminates on the width of the re-bracketed interval), with the two-argument
-  `Sign(x,y)` of src/Special_Functions.cpp.  Exact rationals, core-only.
+  C02 — `Find_Root` (Ridder's method), src/Numerics.cpp §2, as coded after commits 0ee7d00
+  (the loop terminates on the width of the re-bracketed interval) and 008fb03 (the new iterate is
+  clamped into the current bracket), with the two-argument `Sign(x,y)` of
+  src/Special_Functions.cpp.  Exact rationals, core-only.
 
   Parameters: the user function `f : Rat → Option Rat` (`none` = NaN), the square root
   `sq : Rat → Rat` (theorems state what they need of it), and a rounding `rnd : Rat → Rat`
@@ -45,6 +46,10 @@ structure Res where
 def ridderX4 (sq rnd : Rat → Rat) (x1 f1 f2 x3 f3 : Rat) : Rat :=
   rnd (x3 + (x3 - x1) * ((sign1 (f1 - f2) : Int) : Rat) * f3 / sq (f3 * f3 - f1 * f2))
 
+/-- `if(x4 < std::min(x1,x2)) x4 = std::min(x1,x2); else if(x4 > std::max(x1,x2)) x4 = std::max(x1,x2);` -/
+def clampX4 (x1 x2 x4 : Rat) : Rat :=
+  if x4 < rmin x1 x2 then rmin x1 x2 else if x4 > rmax x1 x2 then rmax x1 x2 else x4
+
 /-- the three re-bracketing branches; `none` = the "does not reach the root" branch -/
 def rebracket (x1 x2 f1 f2 x3 f3 x4 f4 : Rat) : Option (Rat × Rat × Rat × Rat) :=
   if sign2 f3 f4 ≠ f3 then some (x3, x4, f3, f4)
@@ -62,7 +67,7 @@ def step (f : Rat → Option Rat) (sq rnd : Rat → Rat) (acc : Rat) (x1 x2 f1 f
   match f x3 with
   | none => .done .nanInside [x3]
   | some f3 =>
-    let x4 := ridderX4 sq rnd x1 f1 f2 x3 f3
+    let x4 := clampX4 x1 x2 (ridderX4 sq rnd x1 f1 f2 x3 f3)
     match f x4 with
     | none => .done .nanInside [x3, x4]
     | some f4 =>
